@@ -41,6 +41,12 @@ const (
 	famRm    = "rm"
 	famIndep = "lc-indep"
 
+	// families in which some supplied functions exit abnormally (panic recovered by the
+	// harness in the caller's goroutine, or runtime.Goexit in a goroutine of its own)
+	famSfAbn = "sf-abnormal"
+	famLcAbn = "lc-abnormal"
+	famRmAbn = "rm-abnormal"
+
 	maxKeys = 5
 
 	// watchdogs (never a verdict): a phase that has not finished after phaseWatchdog
@@ -48,6 +54,15 @@ const (
 	// abortGrace more the history is abandoned as inconclusive.
 	phaseWatchdog = 90 * time.Second
 	abortGrace    = 45 * time.Second
+
+	// abnormal families only: a phase that has not finished after blockProbeAfter is examined
+	// for a *stable block* (decided by "nothing changed", never by elapsed time): harness waits
+	// are released, then blockStableDumps consecutive goroutine dumps blockProbeEvery apart must
+	// be identical, show every goroutine of the history parked in a sync wait inside core/syncx,
+	// with no harness function running and not a single event stamped in between.
+	blockProbeAfter  = 5 * time.Second
+	blockProbeEvery  = 2 * time.Second
+	blockStableDumps = 5
 )
 
 // body kinds of a supplied function
@@ -60,9 +75,11 @@ const (
 
 // result kinds of a supplied function
 const (
-	resVal  = iota // (value, nil)           rm: create succeeds
-	resErr         // (nil, error)           rm: create fails
-	resBoth        // (value, error)         (SingleFlight / LockedCalls only)
+	resVal    = iota // (value, nil)           rm: create succeeds
+	resErr           // (nil, error)           rm: create fails
+	resBoth          // (value, error)         (SingleFlight / LockedCalls only)
+	resPanic         // the function panics; the harness recovers in the caller's goroutine
+	resGoexit        // the function calls runtime.Goexit; the call runs in a goroutine of its own
 )
 
 // ---------------------------------------------------------------- specification of a history
@@ -91,6 +108,10 @@ func (s callSpec) String() string {
 		r = "err"
 	case resBoth:
 		r = "val+err"
+	case resPanic:
+		r = "PANIC"
+	case resGoexit:
+		r = "GOEXIT"
 	}
 	x := ""
 	if s.Ex {
@@ -170,8 +191,34 @@ func genCall(r *kit.Rand, fam string, keys int, hot bool, bodyW [4]int, errP flo
 	return cs
 }
 
-func genHist(r *kit.Rand, fam string) *histSpec {
-	hs := &histSpec{Fam: fam}
+// baseFam maps a family to the API family it drives.
+func baseFam(fam string) (base string, abnormal bool) {
+	switch fam {
+	case famSfAbn:
+		return famSfMix, true
+	case famLcAbn:
+		return famLc, true
+	case famRmAbn:
+		return famRm, true
+	}
+	return fam, false
+}
+
+func genHist(r *kit.Rand, name string) *histSpec {
+	hs := &histSpec{Fam: name}
+	fam, abnormal := baseFam(name)
+	abnP := 0.0
+	if abnormal {
+		abnP = kit.Choose(r, []float64{0.04, 0.1, 0.2, 0.35})
+	}
+	mkAbn := func(cs *callSpec) {
+		if abnP > 0 && r.Chance(abnP) {
+			cs.Res = resPanic
+			if r.Chance(0.35) {
+				cs.Res = resGoexit
+			}
+		}
+	}
 	hs.Keys = kit.Choose(r, []int{1, 1, 2, 2, 5})
 	hot := hs.Keys > 1 && r.Chance(0.4)
 	bodyProfiles := [][4]int{
@@ -202,6 +249,7 @@ func genHist(r *kit.Rand, fam string) *histSpec {
 			gors[i].Calls = make([]callSpec, nc)
 			for j := range gors[i].Calls {
 				gors[i].Calls[j] = genCall(r, fam, hs.Keys, hot, bodyW, errP, true)
+				mkAbn(&gors[i].Calls[j])
 			}
 		}
 		hs.Phases = append(hs.Phases, gors)
@@ -211,6 +259,25 @@ func genHist(r *kit.Rand, fam string) *histSpec {
 	tail := gorSpec{Calls: make([]callSpec, nt)}
 	for j := range tail.Calls {
 		tail.Calls[j] = genCall(r, fam, hs.Keys, false, [4]int{3, 1, 1, 0}, errP, false)
+	}
+	if abnormal {
+		// the tail visits every key after all abnormal exits (normal calls), then may exit
+		// abnormally itself and come back once more
+		for _, k := range r.Perm(hs.Keys) {
+			cs := genCall(r, fam, hs.Keys, false, [4]int{3, 1, 1, 0}, errP, false)
+			cs.Key = k
+			tail.Calls = append(tail.Calls, cs)
+		}
+		if r.Chance(0.5) {
+			cs := genCall(r, fam, hs.Keys, false, [4]int{1, 0, 0, 0}, 0, false)
+			mkAbn(&cs)
+			if cs.Res != resPanic && cs.Res != resGoexit {
+				cs.Res = resPanic
+			}
+			after := genCall(r, fam, hs.Keys, false, [4]int{1, 0, 0, 0}, errP, false)
+			after.Key = cs.Key
+			tail.Calls = append(tail.Calls, cs, after)
+		}
 	}
 	hs.Phases = append(hs.Phases, []gorSpec{tail})
 	return hs
@@ -229,8 +296,14 @@ type exec struct {
 	end    uint64
 	retVal bool
 	retErr bool
+	abn    int       // 0 normal, resPanic, resGoexit: how the function exited
 	res    *resource // rm: the instance a successful create produced
 }
+
+// execPanic is the value an abnormal function panics with.
+type execPanic struct{ e *exec }
+
+func (p *execPanic) String() string { return "harness panic of execution " + p.e.name() }
 
 func (e *exec) name() string {
 	if e.run > 1 {
@@ -256,6 +329,8 @@ type callRec struct {
 	spec  callSpec
 	inv   uint64
 	ret   uint64
+	invA  atomic.Uint64 // mirrors of inv/ret readable while the history is still running (block probe)
+	retA  atomic.Uint64
 	runs  atomic.Int32
 	ex0   exec
 	extra []*exec // runs beyond the first (never on correct code); guarded by hist.mu
@@ -265,6 +340,24 @@ type callRec struct {
 	gotFresh bool
 	gotRes   io.Closer
 	panicked any
+	goexited bool // the call neither returned nor panicked: its goroutine was ended by runtime.Goexit
+}
+
+// abnormal reports whether the call's own function ran and exited abnormally (as specified).
+func (c *callRec) abnormal() bool {
+	return (c.spec.Res == resPanic || c.spec.Res == resGoexit) && c.runs.Load() >= 1
+}
+
+// ownAbnormalExit: the call ended the way its own abnormal function dictates.
+func (c *callRec) ownAbnormalExit() bool {
+	if !c.abnormal() {
+		return false
+	}
+	if c.spec.Res == resGoexit {
+		return c.goexited
+	}
+	p, ok := c.panicked.(*execPanic)
+	return ok && p.e.call == c
 }
 
 func (c *callRec) api(fam string) string {
@@ -290,17 +383,20 @@ type phaseRt struct {
 }
 
 type hist struct {
-	spec   *histSpec
-	fam    string
-	sf     syncx.SingleFlight
-	lc     syncx.LockedCalls
-	rm     *syncx.ResourceManager
-	gauge  [maxKeys]kit.Gauge
-	fnEnds [maxKeys]atomic.Int64
-	abort  atomic.Bool
-	mu     sync.Mutex
-	calls  []*callRec
-	names  [maxKeys]string
+	spec    *histSpec
+	fam     string // API family: sf-do | sf-doex | sf-mixed | lc | rm
+	abn     bool   // abnormal family
+	label   string // pprof label of the goroutines of this history (abnormal families)
+	blocked *blockInfo
+	sf      syncx.SingleFlight
+	lc      syncx.LockedCalls
+	rm      *syncx.ResourceManager
+	gauge   [maxKeys]kit.Gauge
+	fnEnds  [maxKeys]atomic.Int64
+	abort   atomic.Bool
+	mu      sync.Mutex
+	calls   []*callRec
+	names   [maxKeys]string
 }
 
 var sink atomic.Uint64
@@ -353,16 +449,36 @@ func (h *hist) body(cr *callRec, ph *phaseRt) *exec {
 	return e
 }
 
+// exitAbnormally ends a supplied function the way the spec asks for (after its last stamp).
+func exitAbnormally(e *exec, how int) {
+	e.abn = how
+	if how == resGoexit {
+		runtime.Goexit()
+	}
+	panic(&execPanic{e})
+}
+
 func (h *hist) invoke(cr *callRec, ph *phaseRt) {
+	completed := false
 	defer func() {
 		if r := recover(); r != nil {
 			cr.panicked = r
+		} else if !completed {
+			cr.goexited = true
 		}
 	}()
+	h.invoke1(cr, ph)
+	completed = true
+}
+
+func (h *hist) invoke1(cr *callRec, ph *phaseRt) {
 	key := h.names[cr.spec.Key]
 	if h.fam == famRm {
 		cr.gotRes, cr.gotErr = h.rm.GetResource(key, func() (io.Closer, error) {
 			e := h.body(cr, ph)
+			if cr.spec.Res == resPanic || cr.spec.Res == resGoexit {
+				exitAbnormally(e, cr.spec.Res)
+			}
 			if cr.spec.Res == resVal {
 				e.res = &resource{e}
 				e.retVal = true
@@ -382,6 +498,9 @@ func (h *hist) invoke(cr *callRec, ph *phaseRt) {
 		case resErr:
 			e.retErr = true
 			return nil, &execErr{e}
+		case resPanic, resGoexit:
+			exitAbnormally(e, cr.spec.Res)
+			return nil, nil
 		default:
 			e.retVal, e.retErr = true, true
 			return e, &execErr{e}
@@ -420,11 +539,22 @@ func (h *hist) runGor(ph *phaseRt, gs *gorSpec, recs []*callRec) {
 			}
 		}
 		cr.inv = kit.Stamp()
+		cr.invA.Store(cr.inv)
 		if i == 0 && !gs.Chaser {
 			ph.invoked.Add(1)
 		}
-		h.invoke(cr, ph)
+		if cr.spec.Res == resGoexit {
+			fin := make(chan struct{})
+			go func() {
+				defer close(fin)
+				h.invoke(cr, ph)
+			}()
+			<-fin
+		} else {
+			h.invoke(cr, ph)
+		}
 		cr.ret = kit.Stamp()
+		cr.retA.Store(cr.ret)
 	}
 	if !gs.Chaser {
 		ph.ncDone.Add(1)
@@ -436,6 +566,15 @@ func (h *hist) runGor(ph *phaseRt, gs *gorSpec, recs []*callRec) {
 
 // run executes the history; false = abandoned (watchdog), records must not be read.
 func (h *hist) run(c *kit.Case) bool {
+	if !h.abn {
+		return h.run1(c)
+	}
+	ok := false
+	kit.WithLabel(h.label, func() { ok = h.run1(c) })
+	return ok
+}
+
+func (h *hist) run1(c *kit.Case) bool {
 	for k := range h.names {
 		h.names[k] = fmt.Sprintf("k%d", k)
 	}
@@ -468,6 +607,25 @@ func (h *hist) run(c *kit.Case) bool {
 			go h.runGor(ph, &p[gi], all[gi])
 		}
 		close(ph.start)
+		if h.abn {
+			pt := time.NewTimer(blockProbeAfter)
+			select {
+			case <-ph.done:
+				pt.Stop()
+				continue
+			case <-pt.C:
+			}
+			bi, done := h.probeBlock(ph, pi)
+			if done {
+				continue
+			}
+			if bi != nil {
+				h.blocked = bi
+				return false
+			}
+			c.Inconclusive(fmt.Sprintf("phase %d did not finish within %v and no stable block could be established; history abandoned, no verdict", pi, phaseWatchdog))
+			return false
+		}
 		tm := time.NewTimer(phaseWatchdog)
 		select {
 		case <-ph.done:
@@ -486,6 +644,112 @@ func (h *hist) run(c *kit.Case) bool {
 		}
 	}
 	return true
+}
+
+// ---------------------------------------------------------------- stable-block probe (abnormal families)
+
+type blockInfo struct {
+	afterAbnormal bool // some blocked call was invoked after an abnormal leader's call on its key had ended
+	witness       map[string]any
+}
+
+// parkedInSyncx classifies the goroutines of the history: every one must be parked in a
+// sync wait (WaitGroup / Mutex / RWMutex semaphore) below a core/syncx frame, or be the
+// harness goroutine waiting for the goroutine it started for a Goexit call.
+func parkedInSyncx(gs []kit.Goroutine) (fingerprint string, parked bool) {
+	parts := make([]string, 0, len(gs))
+	parked = len(gs) > 0
+	for _, g := range gs {
+		st := g.Stack
+		inSyncx := strings.Contains(st, "go-zero/core/syncx.")
+		switch {
+		case inSyncx && strings.Contains(st, "sync.runtime_Semacquire"):
+		case !inSyncx && strings.Contains(st, "c07.(*hist).runGor") && strings.Contains(st, "runtime.chanrecv"):
+		default:
+			parked = false
+		}
+		parts = append(parts, fmt.Sprintf("%d*%s", g.Count, st))
+	}
+	sort.Strings(parts)
+	return strings.Join(parts, "|"), parked
+}
+
+// probeBlock decides by stability, never by elapsed time: done=true if the phase finished
+// meanwhile; a blockInfo if blockStableDumps consecutive dumps were identical, all parked
+// inside core/syncx, no harness function running, and not one event stamped in between;
+// (nil,false) if that could not be established before the watchdog.
+func (h *hist) probeBlock(ph *phaseRt, pi int) (*blockInfo, bool) {
+	h.abort.Store(true) // release every harness-side wait first
+	deadline := time.Now().Add(phaseWatchdog)
+	prev, same := "", 0
+	var prevStamp uint64
+	for time.Now().Before(deadline) {
+		tm := time.NewTimer(blockProbeEvery)
+		select {
+		case <-ph.done:
+			tm.Stop()
+			return nil, true
+		case <-tm.C:
+		}
+		gs := kit.LabelledGoroutines(h.label)
+		s := kit.Stamp()
+		fp, parked := parkedInSyncx(gs)
+		for k := range h.gauge {
+			if h.gauge[k].Cur() != 0 {
+				parked = false // a harness function is still running
+			}
+		}
+		switch {
+		case parked && same > 0 && fp == prev && s == prevStamp+1:
+			same++
+		case parked:
+			same = 1
+		default:
+			same = 0
+		}
+		prev, prevStamp = fp, s
+		if same >= blockStableDumps {
+			return h.blockReport(gs, pi), false
+		}
+	}
+	return nil, false
+}
+
+// blockReport reads only immutable specs and atomics (the history is still "running").
+func (h *hist) blockReport(gs []kit.Goroutine, pi int) *blockInfo {
+	bi := &blockInfo{}
+	var abnEnded [maxKeys][]*callRec
+	for _, cl := range h.calls {
+		if cl.abnormal() && cl.retA.Load() != 0 {
+			abnEnded[cl.spec.Key] = append(abnEnded[cl.spec.Key], cl)
+		}
+	}
+	var blocked, abn []string
+	for _, cl := range h.calls {
+		inv, ret := cl.invA.Load(), cl.retA.Load()
+		if cl.abnormal() && ret != 0 {
+			abn = append(abn, fmt.Sprintf("c%d p%d/g%d k%d %s function exited by %s; call inv@%d ended@%d", cl.id, cl.phase, cl.g, cl.spec.Key, cl.api(h.fam), cl.spec.String(), inv, ret))
+		}
+		if inv == 0 || ret != 0 {
+			continue
+		}
+		after := ""
+		for _, a := range abnEnded[cl.spec.Key] {
+			if a.retA.Load() < inv {
+				after = fmt.Sprintf(" - invoked after abnormal call c%d had ended @%d", a.id, a.retA.Load())
+				bi.afterAbnormal = true
+				break
+			}
+		}
+		blocked = append(blocked, fmt.Sprintf("c%d p%d/g%d k%d %s inv@%d never returned (own function ran %d times)%s", cl.id, cl.phase, cl.g, cl.spec.Key, cl.api(h.fam), inv, cl.runs.Load(), after))
+	}
+	var stacks []string
+	for _, g := range gs {
+		stacks = append(stacks, fmt.Sprintf("%d goroutine(s): %s", g.Count, kit.TopFrames(g.Stack, 6)))
+	}
+	bi.witness = map[string]any{"history": h.spec.render(), "blocked_in_phase": pi, "blocked_calls": blocked, "abnormal_exits_before": abn,
+		"goroutines": stacks, "decision": fmt.Sprintf("%d consecutive goroutine dumps %v apart identical, all parked in sync waits inside core/syncx, no harness function running, no event stamped in between, harness waits released", blockStableDumps, blockProbeEvery)}
+	return bi
 }
 
 // ---------------------------------------------------------------- offline checker helpers
@@ -583,29 +847,108 @@ func between(invs []invEntry, lo, hi uint64, not *callRec) []*callRec {
 	return res
 }
 
+// ---------------------------------------------------------------- abnormal exits (shared by the three oracles)
+
+type abnStats struct {
+	panics, goexits int64 // calls whose own function exited abnormally
+	after           int64 // other calls invoked after an abnormal call of their key had ended
+	unconstrained   int64 // calls overlapping an abnormal call that got no identifiable result (outside the statement)
+}
+
+type abnView struct {
+	by [maxKeys][]*callRec
+	st abnStats
+}
+
+func newAbnView(h *hist) *abnView {
+	v := &abnView{}
+	if !h.abn {
+		return v
+	}
+	for _, cl := range h.calls {
+		if cl.abnormal() {
+			v.by[cl.spec.Key] = append(v.by[cl.spec.Key], cl)
+			if cl.spec.Res == resGoexit {
+				v.st.goexits++
+			} else {
+				v.st.panics++
+			}
+		}
+	}
+	for _, cl := range h.calls {
+		if !cl.abnormal() {
+			if _, a := v.rel(cl); a != nil {
+				v.st.after++
+			}
+		}
+	}
+	return v
+}
+
+// rel relates a call to the abnormal calls of its key: overlaps = its call interval overlaps
+// the call of an abnormal leader (then what it receives is outside the statement); after = an
+// abnormal leader whose call had ended before this call was invoked.
+func (v *abnView) rel(cl *callRec) (overlaps bool, after *callRec) {
+	for _, a := range v.by[cl.spec.Key] {
+		if a == cl {
+			continue
+		}
+		if a.ret < cl.inv {
+			if after == nil {
+				after = a
+			}
+		} else if a.inv < cl.ret {
+			overlaps = true
+		}
+	}
+	return
+}
+
+// unidentified handles a call that ended without an identifiable result (panic, Goexit, a
+// (value, error) pair no execution returned). Returns true if it was reported or exempted.
+func (v *abnView) unidentified(ck *checker, cl *callRec, api, kind, what string, extra map[string]any) {
+	overlaps, after := v.rel(cl)
+	k := cl.spec.Key
+	switch {
+	case overlaps:
+		v.st.unconstrained++
+	case after != nil:
+		extra["abnormal_leading_call"] = callDesc(ck.h.fam, after) + " function exited by " + after.spec.String()
+		extra["caller_own_function_ran"] = cl.runs.Load()
+		ck.viol("stale-result-after-abnormal-exit"+api, "a call invoked after an abnormally ended call of its key had already returned neither ran afresh nor joined a live flight: "+what, k, extra)
+	default:
+		ck.viol(kind+api, what, k, extra)
+	}
+}
+
 // ---------------------------------------------------------------- SingleFlight oracle
 
 type sfStats struct {
+	abn                                                    abnStats
 	nontrivial                                             bool
 	calls, execs, followers, window, joinedInWindow, fresh int64
 	sharedErrs, tailAfresh                                 int64
 }
 
-func checkSF(c *kit.Case, h *hist) sfStats {
+func checkSF(c *kit.Case, h *hist) (st sfStats) {
 	ck := &checker{c: c, h: h, fam: "sf", seen: map[string]bool{}}
-	var st sfStats
 	by := h.execs()
 	ck.disjoint(by, "two executions of supplied functions")
 	freshCount := map[*exec]int{}
 	result := map[*callRec]*exec{}
 	lastPhase := len(h.spec.Phases) - 1
+	av := newAbnView(h)
+	defer func() { st.abn = av.st }()
 	for _, cl := range h.calls {
 		st.calls++
 		k := cl.spec.Key
 		api := cl.api(h.fam)
-		if cl.panicked != nil {
-			ck.viol("panic/"+api, "the call panicked instead of returning the result of an execution", k,
-				map[string]any{"call": callDesc(h.fam, cl), "panic": fmt.Sprint(cl.panicked)})
+		if cl.abnormal() {
+			continue // its own function exited abnormally: what this call itself gets is outside the statement
+		}
+		if cl.panicked != nil || cl.goexited {
+			av.unidentified(ck, cl, "/"+api, "panic", "the call panicked instead of returning the result of an execution",
+				map[string]any{"call": callDesc(h.fam, cl), "panic": fmt.Sprint(cl.panicked), "goexit": cl.goexited})
 			continue
 		}
 		var ve, ee *exec
@@ -625,8 +968,8 @@ func checkSF(c *kit.Case, h *hist) sfStats {
 			}
 		}
 		if foreign || (ve == nil && ee == nil) {
-			ck.viol("result-of-no-execution/"+api, "the caller received a (value, error) pair that no execution of this history returned", k,
-				map[string]any{"call": callDesc(h.fam, cl), "value": fmt.Sprint(cl.gotVal), "error": fmt.Sprint(cl.gotErr)})
+			av.unidentified(ck, cl, "/"+api, "result-of-no-execution", "the caller received a (value, error) pair that no execution of this history returned",
+				map[string]any{"call": callDesc(h.fam, cl), "value": fmt.Sprint(cl.gotVal), "error": fmt.Sprint(cl.gotErr), "fresh": cl.gotFresh})
 			continue
 		}
 		if ve != nil && ee != nil && ve != ee {
@@ -711,20 +1054,25 @@ func checkSF(c *kit.Case, h *hist) sfStats {
 // ---------------------------------------------------------------- LockedCalls oracle
 
 type lcStats struct {
+	abn                   abnStats
 	nontrivial            bool
 	calls, execs, whileFn int64
 }
 
-func checkLC(c *kit.Case, h *hist) lcStats {
+func checkLC(c *kit.Case, h *hist) (st lcStats) {
 	ck := &checker{c: c, h: h, fam: "lc", seen: map[string]bool{}}
-	var st lcStats
 	by := h.execs()
 	ck.disjoint(by, "two executions of callers' functions")
+	av := newAbnView(h)
+	defer func() { st.abn = av.st }()
 	for _, cl := range h.calls {
 		st.calls++
 		k := cl.spec.Key
-		if cl.panicked != nil {
-			ck.viol("panic", "LockedCalls.Do panicked", k, map[string]any{"call": callDesc(h.fam, cl), "panic": fmt.Sprint(cl.panicked)})
+		if (cl.panicked != nil || cl.goexited) && !cl.ownAbnormalExit() {
+			// LockedCalls never shares anything between callers: a call may only end abnormally
+			// because its own function did
+			ck.viol("panic", "LockedCalls.Do panicked (or its goroutine was ended) although the caller's own function did not do that", k,
+				map[string]any{"call": callDesc(h.fam, cl), "panic": fmt.Sprint(cl.panicked), "goexit": cl.goexited})
 			continue
 		}
 		switch n := cl.runs.Load(); {
@@ -756,14 +1104,16 @@ func checkLC(c *kit.Case, h *hist) lcStats {
 // ---------------------------------------------------------------- ResourceManager oracle
 
 type rmStats struct {
+	abn                                                     abnStats
 	nontrivial                                              bool
 	calls, creates, okCreates, failCreates, whileFn, shared int64
 	recreatedAfterFailure, tailErrFresh                     int64
 }
 
-func checkRM(c *kit.Case, h *hist) rmStats {
+func checkRM(c *kit.Case, h *hist) (st rmStats) {
 	ck := &checker{c: c, h: h, fam: "rm", seen: map[string]bool{}}
-	var st rmStats
+	av := newAbnView(h)
+	defer func() { st.abn = av.st }()
 	by := h.execs()
 	ck.disjoint(by, "two create functions")
 	var created [maxKeys]*exec
@@ -793,15 +1143,18 @@ func checkRM(c *kit.Case, h *hist) rmStats {
 	for _, cl := range h.calls {
 		st.calls++
 		k := cl.spec.Key
-		if cl.panicked != nil {
-			ck.viol("panic", "GetResource panicked instead of handing out the instance or an error", k,
-				map[string]any{"call": callDesc(h.fam, cl), "panic": fmt.Sprint(cl.panicked)})
+		if cl.abnormal() {
+			continue // its own create exited abnormally: what this call itself gets is outside the statement
+		}
+		if cl.panicked != nil || cl.goexited {
+			av.unidentified(ck, cl, "", "panic", "GetResource panicked instead of handing out the instance or an error",
+				map[string]any{"call": callDesc(h.fam, cl), "panic": fmt.Sprint(cl.panicked), "goexit": cl.goexited})
 			continue
 		}
 		if cl.gotErr == nil {
 			res, ok := cl.gotRes.(*resource)
 			if !ok || res == nil || res.e.h != h {
-				ck.viol("instance-of-no-create", "GetResource returned no error and something no create function of this history produced", k,
+				av.unidentified(ck, cl, "", "instance-of-no-create", "GetResource returned no error and something no create function of this history produced",
 					map[string]any{"call": callDesc(h.fam, cl), "got": fmt.Sprint(cl.gotRes)})
 				continue
 			}
@@ -898,6 +1251,9 @@ func (h *hist) signature() uint64 {
 		if ev.c.runs.Load() > 0 {
 			b |= 1
 		}
+		if ev.e != nil {
+			b |= uint64(ev.e.abn) << 8
+		}
 		x = (x ^ b) * prime
 	}
 	return x
@@ -918,6 +1274,8 @@ func (h *hist) dump(key, max int) []string {
 		case 1:
 			got := ""
 			switch {
+			case c.goexited:
+				got = "goroutine ended by runtime.Goexit"
 			case c.panicked != nil:
 				got = "panic " + fmt.Sprint(c.panicked)
 			case h.fam == famRm:
@@ -946,7 +1304,14 @@ func (h *hist) dump(key, max int) []string {
 		case 2:
 			out = append(out, fmt.Sprintf("%d c%d fnstart %s", ev.s, c.id, ev.e.name()))
 		case 3:
-			out = append(out, fmt.Sprintf("%d c%d fnend %s returns(value=%v,error=%v)", ev.s, c.id, ev.e.name(), ev.e.retVal, ev.e.retErr))
+			how := fmt.Sprintf("returns(value=%v,error=%v)", ev.e.retVal, ev.e.retErr)
+			switch ev.e.abn {
+			case resPanic:
+				how = "then PANICS"
+			case resGoexit:
+				how = "then calls runtime.Goexit"
+			}
+			out = append(out, fmt.Sprintf("%d c%d fnend %s %s", ev.s, c.id, ev.e.name(), how))
 		}
 	}
 	return out
@@ -954,16 +1319,27 @@ func (h *hist) dump(key, max int) []string {
 
 // ---------------------------------------------------------------- one evaluation
 
-func runHistory(c *kit.Case, fam string) {
-	spec := genHist(c.R, fam)
+// blockedConfirmed: family -> a reproduced stable block after an abnormal exit was reported in
+// this process; its remaining cases are skipped (each would cost two full stability probes and
+// leak its goroutines, and the run already reports the violation).
+var blockedConfirmed = map[string]bool{}
+
+var labelSeq int
+
+func runHistory(c *kit.Case, name string) {
+	if blockedConfirmed[name] {
+		c.Obs("abn_histories_skipped_after_confirmed_block", 1)
+		return
+	}
+	spec := genHist(c.R, name)
 	reps := 1
 	if kit.GetEnv().Only != "" {
 		reps = 200 // replay: schedules are not reproducible, re-run the same history and report the hit count
 	}
 	hits := 0
-	for rep := 0; rep < reps; rep++ {
+	for rep := 0; rep < reps && !blockedConfirmed[name]; rep++ {
 		before := violCount
-		runOnce(c, spec, fam)
+		runOnce(c, spec, name, nil)
 		if violCount > before {
 			hits++
 		}
@@ -974,57 +1350,102 @@ func runHistory(c *kit.Case, fam string) {
 	}
 }
 
-func runOnce(c *kit.Case, spec *histSpec, fam string) {
-	h := &hist{spec: spec, fam: fam}
+// runOnce executes and checks one history. firstBlock != nil: this is the re-run after a
+// stable block was seen on the first attempt.
+func runOnce(c *kit.Case, spec *histSpec, name string, firstBlock *blockInfo) {
+	fam, abn := baseFam(name)
+	h := &hist{spec: spec, fam: fam, abn: abn}
+	pre := ""
+	kind := "sf"
+	switch fam {
+	case famLc:
+		kind = "lc"
+	case famRm:
+		kind = "rm"
+	}
+	if abn {
+		pre = "abn_"
+		labelSeq++
+		h.label = fmt.Sprintf("%s#%d", c.ID, labelSeq)
+	}
 	if !h.run(c) {
 		c.Obs("histories_abandoned", 1)
+		bi := h.blocked
+		switch {
+		case bi == nil:
+		case !bi.afterAbnormal:
+			c.Inconclusive("stable block, but every blocked call had been invoked before the abnormally ended call of its key returned (what already waiting callers get is outside the statement)")
+		case firstBlock == nil:
+			runOnce(c, spec, name, bi) // must reproduce on a fresh instance
+		default:
+			blockedConfirmed[name] = true
+			violCount++
+			c.Viol("C07/"+kind+"/blocked-after-abnormal-exit",
+				"calls invoked after an abnormally ended call (function panicked / runtime.Goexit) of their key had returned never return: stable block inside core/syncx, reproduced on a fresh instance",
+				map[string]any{"first_attempt": firstBlock.witness, "second_attempt": bi.witness})
+		}
 		return
 	}
-	c.Obs("histories_"+fam, 1)
+	if firstBlock != nil {
+		c.Inconclusive("a stable block after an abnormal exit was seen once and did not reproduce on a fresh instance")
+	}
+	c.Obs("histories_"+name, 1)
 	nontrivial := false
 	var sample map[string]any
+	var ast abnStats
 	switch fam {
 	case famLc:
 		st := checkLC(c, h)
-		nontrivial = st.nontrivial
-		c.Obs("lc_calls", st.calls)
-		c.Obs("lc_executions", st.execs)
-		c.Obs("lc_calls_invoked_while_same_key_fn_running", st.whileFn)
+		nontrivial, ast = st.nontrivial, st.abn
+		c.Obs(pre+"lc_calls", st.calls)
+		c.Obs(pre+"lc_executions", st.execs)
+		c.Obs(pre+"lc_calls_invoked_while_same_key_fn_running", st.whileFn)
 		sample = map[string]any{"calls": st.calls, "executions": st.execs, "invoked_while_same_key_fn_running": st.whileFn}
 	case famRm:
 		st := checkRM(c, h)
-		nontrivial = st.nontrivial
-		c.Obs("rm_calls", st.calls)
-		c.Obs("rm_creates", st.creates)
-		c.Obs("rm_creates_ok", st.okCreates)
-		c.Obs("rm_creates_failed", st.failCreates)
-		c.Obs("rm_create_ok_after_failed_create", st.recreatedAfterFailure)
-		c.Obs("rm_calls_invoked_while_same_key_create_running", st.whileFn)
-		c.Obs("rm_calls_handed_instance_created_by_other_call", st.shared)
-		c.Obs("rm_tail_calls_failed_with_own_fresh_create", st.tailErrFresh)
+		nontrivial, ast = st.nontrivial, st.abn
+		c.Obs(pre+"rm_calls", st.calls)
+		c.Obs(pre+"rm_creates", st.creates)
+		c.Obs(pre+"rm_creates_ok", st.okCreates)
+		c.Obs(pre+"rm_creates_failed", st.failCreates)
+		c.Obs(pre+"rm_create_ok_after_failed_create", st.recreatedAfterFailure)
+		c.Obs(pre+"rm_calls_invoked_while_same_key_create_running", st.whileFn)
+		c.Obs(pre+"rm_calls_handed_instance_created_by_other_call", st.shared)
+		c.Obs(pre+"rm_tail_calls_failed_with_own_fresh_create", st.tailErrFresh)
 		sample = map[string]any{"calls": st.calls, "creates": st.creates, "ok": st.okCreates, "failed": st.failCreates,
 			"invoked_while_same_key_create_running": st.whileFn, "shared": st.shared}
 	default:
 		st := checkSF(c, h)
-		nontrivial = st.nontrivial
-		c.Obs("sf_calls", st.calls)
-		c.Obs("sf_executions", st.execs)
-		c.Obs("sf_followers", st.followers)
-		c.Obs("sf_followers_sharing_an_error", st.sharedErrs)
-		c.Obs("sf_calls_invoked_between_leader_fnend_and_leader_return", st.window)
-		c.Obs("sf_of_those_joined_the_ending_flight", st.joinedInWindow)
-		c.Obs("sf_fresh_reports", st.fresh)
-		c.Obs("sf_tail_calls_executed_afresh", st.tailAfresh)
+		nontrivial, ast = st.nontrivial, st.abn
+		c.Obs(pre+"sf_calls", st.calls)
+		c.Obs(pre+"sf_executions", st.execs)
+		c.Obs(pre+"sf_followers", st.followers)
+		c.Obs(pre+"sf_followers_sharing_an_error", st.sharedErrs)
+		c.Obs(pre+"sf_calls_invoked_between_leader_fnend_and_leader_return", st.window)
+		c.Obs(pre+"sf_of_those_joined_the_ending_flight", st.joinedInWindow)
+		c.Obs(pre+"sf_fresh_reports", st.fresh)
+		c.Obs(pre+"sf_tail_calls_executed_afresh", st.tailAfresh)
 		sample = map[string]any{"calls": st.calls, "executions": st.execs, "followers": st.followers,
 			"invoked_between_leader_fnend_and_return": st.window, "of_those_joined_the_ending_flight": st.joinedInWindow}
 	}
-	if nontrivial {
-		c.Obs("nontrivial_"+fam, 1)
+	if abn {
+		// abnormal families: non-trivial iff a call was invoked after an abnormally ended call of
+		// its key had returned (the calls the statement speaks about)
+		nontrivial = ast.after > 0
+		c.Obs("abn_"+kind+"_function_exits_by_panic", ast.panics)
+		c.Obs("abn_"+kind+"_function_exits_by_goexit", ast.goexits)
+		c.Obs("abn_"+kind+"_calls_invoked_after_abnormal_exit_of_same_key", ast.after)
+		c.Obs("abn_"+kind+"_waiting_followers_unconstrained", ast.unconstrained)
+		sample["function_exits_by_panic"], sample["function_exits_by_goexit"] = ast.panics, ast.goexits
+		sample["calls_invoked_after_abnormal_exit_of_same_key"] = ast.after
 	}
-	c.Sig(nontrivial, fam, h.signature())
-	cls := fam + "/trivial"
 	if nontrivial {
-		cls = fam + "/nontrivial"
+		c.Obs("nontrivial_"+name, 1)
+	}
+	c.Sig(nontrivial, name, h.signature())
+	cls := name + "/trivial"
+	if nontrivial {
+		cls = name + "/nontrivial"
 	}
 	if len(h.calls) <= 40 {
 		sample["history"] = spec.render()
@@ -1265,6 +1686,9 @@ func TestVerifC07(t *testing.T) {
 		{famSfMix, 4800, 100000},
 		{famLc, 5600, 120000},
 		{famRm, 5000, 110000},
+		{famSfAbn, 2400, 50000},
+		{famLcAbn, 1600, 32000},
+		{famRmAbn, 1600, 32000},
 	}
 	for _, f := range fams {
 		f := f
